@@ -58,6 +58,24 @@ pub enum Op {
     Match(u64),
     Upd(UpdKind, u64),
     Restore(Path),
+    /// macro letter: add n Standard(2) orders under ids 100.. (many resting orders in one transition)
+    BulkAdd(u64),
+    /// macro letter: cancel ids 100..100+k
+    BulkCancel(u64),
+    /// macro letter: k same-price quantity amendments (to 1) of one order (many stale tickets)
+    Churn(u64, u64),
+}
+
+pub fn bulk_order(i: u64, price: u64) -> Ord_ {
+    OrderType::Standard {
+        id: oid(100 + i),
+        price,
+        quantity: 2,
+        side: Side::Buy,
+        timestamp: 1000 + i,
+        time_in_force: pricelevel::TimeInForce::Gtc,
+        extra_fields: (),
+    }
 }
 
 #[derive(Clone, Debug, Default)]
@@ -109,6 +127,9 @@ impl LevelCfg {
                 UpdKind::ReplaceMove(n) => format!("replace #{id} -> ({}, {n})", self.price + 1),
             },
             Op::Restore(p) => format!("restore via {p:?}"),
+            Op::BulkAdd(n) => format!("add {n} orders S(2) as #100..#{}", 99 + n),
+            Op::BulkCancel(k) => format!("cancel #100..#{}", 99 + k),
+            Op::Churn(id, k) => format!("{k} x update_quantity #{id} -> 1"),
         }
     }
 
@@ -265,6 +286,8 @@ pub enum ImplRes {
     Matched(MatchObs),
     Updated(UpdObs),
     Restored,
+    /// macro letters: how many of the sub-operations succeeded
+    Count(u64),
     /// the call did not return within the step budget
     NoReturn,
     Panicked(String),
@@ -278,6 +301,7 @@ impl ImplRes {
             ImplRes::Matched(m) => m.describe(),
             ImplRes::Updated(u) => u.describe(),
             ImplRes::Restored => "restored".into(),
+            ImplRes::Count(n) => format!("{n} sub-operations succeeded"),
             ImplRes::NoReturn => format!("call did not return within {CALL_BUDGET} steps"),
             ImplRes::Panicked(m) => format!("panicked: {m}"),
             ImplRes::RestoreFailed(m) => format!("restore failed: {m}"),
@@ -412,6 +436,57 @@ impl<'a> Run<'a> {
                     Err(BudgetOrPanic::Panic(m)) => ImplRes::Panicked(m),
                 }
             }
+            Op::BulkAdd(n) => {
+                let price = cfg.price;
+                let r = self.rec.with_budget(CALL_BUDGET * 10, || {
+                    for i in 0..*n {
+                        self.level.add_order(bulk_order(i, price));
+                    }
+                });
+                match r {
+                    Ok(()) => {
+                        self.n_added += *n;
+                        ImplRes::Count(*n)
+                    }
+                    Err(BudgetOrPanic::Budget) => ImplRes::NoReturn,
+                    Err(BudgetOrPanic::Panic(m)) => ImplRes::Panicked(m),
+                }
+            }
+            Op::BulkCancel(k) => {
+                let r = self.rec.with_budget(CALL_BUDGET * 10, || {
+                    let mut ok = 0u64;
+                    for i in 0..*k {
+                        if let Ok(Some(_)) = self.level.update_order(OrderUpdate::Cancel { order_id: oid(100 + i) }) {
+                            ok += 1;
+                        }
+                    }
+                    ok
+                });
+                match r {
+                    Ok(ok) => {
+                        self.n_removed += ok;
+                        ImplRes::Count(ok)
+                    }
+                    Err(BudgetOrPanic::Budget) => ImplRes::NoReturn,
+                    Err(BudgetOrPanic::Panic(m)) => ImplRes::Panicked(m),
+                }
+            }
+            Op::Churn(id, k) => {
+                let r = self.rec.with_budget(CALL_BUDGET * 10, || {
+                    let mut ok = 0u64;
+                    for _ in 0..*k {
+                        if let Ok(Some(_)) = self.level.update_order(OrderUpdate::UpdateQuantity { order_id: oid(*id), new_quantity: 1 }) {
+                            ok += 1;
+                        }
+                    }
+                    ok
+                });
+                match r {
+                    Ok(ok) => ImplRes::Count(ok),
+                    Err(BudgetOrPanic::Budget) => ImplRes::NoReturn,
+                    Err(BudgetOrPanic::Panic(m)) => ImplRes::Panicked(m),
+                }
+            }
             Op::Restore(p) => {
                 let r = self
                     .rec
@@ -444,6 +519,30 @@ impl<'a> Run<'a> {
                 }
                 Op::Match(q) => ImplRes::Matched(m.do_match(*q)),
                 Op::Upd(k, id) => ImplRes::Updated(m.update(&cfg.update_of(*k, *id))),
+                Op::BulkAdd(n) => {
+                    for i in 0..*n {
+                        m.add(bulk_order(i, cfg.price));
+                    }
+                    ImplRes::Count(*n)
+                }
+                Op::BulkCancel(k) => {
+                    let mut ok = 0;
+                    for i in 0..*k {
+                        if let UpdObs::Order(_) = m.update(&OrderUpdate::Cancel { order_id: oid(100 + i) }) {
+                            ok += 1;
+                        }
+                    }
+                    ImplRes::Count(ok)
+                }
+                Op::Churn(id, k) => {
+                    let mut ok = 0;
+                    for _ in 0..*k {
+                        if let UpdObs::Order(_) = m.update(&OrderUpdate::UpdateQuantity { order_id: oid(*id), new_quantity: 1 }) {
+                            ok += 1;
+                        }
+                    }
+                    ImplRes::Count(ok)
+                }
                 Op::Restore(_) => {
                     // a rebuilt level holds the listed orders, re-queued in listing order
                     // (canonical id order, stable-sorted by timestamp = the seam's identity permutation)
@@ -541,7 +640,7 @@ impl LevelSubject {
         let mirror_errors = rec.st.mirror_errors.get();
         let ok = matches!(
             res,
-            ImplRes::Added | ImplRes::Matched(_) | ImplRes::Updated(_) | ImplRes::Restored
+            ImplRes::Added | ImplRes::Matched(_) | ImplRes::Updated(_) | ImplRes::Restored | ImplRes::Count(_)
         );
         let mut drain = None;
         let mut model_drain = vec![];
@@ -580,8 +679,11 @@ impl LevelSubject {
     fn resting_after(&self, post: &LevelObs) -> u16 {
         let mut m = 0u16;
         for o in &post.orders {
-            if let Some(k) = alphabet_id(rec(o).id) {
+            let n = rec(o).id;
+            if let Some(k) = alphabet_id(n) {
                 m |= 1 << k;
+            } else if (100..1000).contains(&n) {
+                m |= 1;
             }
         }
         m
@@ -640,6 +742,22 @@ impl Subject for LevelSubject {
             }
             Op::Upd(_, id) => {
                 if !is_resting(id) && !cfg.absent_ops {
+                    return StepOut::disabled(*aux);
+                }
+            }
+            Op::BulkAdd(_) => {
+                // bit 0 of the mask: some bulk id (#100..) is resting
+                if aux.resting & 1 != 0 {
+                    return StepOut::disabled(*aux);
+                }
+            }
+            Op::BulkCancel(_) => {
+                if aux.resting & 1 == 0 {
+                    return StepOut::disabled(*aux);
+                }
+            }
+            Op::Churn(id, _) => {
+                if !is_resting(id) {
                     return StepOut::disabled(*aux);
                 }
             }
@@ -892,7 +1010,7 @@ impl Subject for LevelSubject {
         }
 
         // --- model agreement
-        let is_upd = matches!(op, Op::Upd(..));
+        let is_upd = matches!(op, Op::Upd(..) | Op::BulkCancel(_) | Op::Churn(..));
         let mut new_alive = 0u8;
         let mut disagreements: Vec<String> = vec![];
         for (i, v) in cfg.variants.iter().enumerate() {
@@ -966,7 +1084,7 @@ impl Subject for LevelSubject {
             };
             match min_variant(new_alive) {
                 None => {
-                    if !is_upd && !matches!(op, Op::Add(..)) || e.drain.is_some() {
+                    if !is_upd && !matches!(op, Op::Add(..) | Op::BulkAdd(_)) || e.drain.is_some() {
                         vio(&mut out, format!(
                             "C04 time priority: the implementation matches neither the ideal model nor any known-deviation variant; {}; state before: {} tickets-after={:?}",
                             disagreements.join(" | "), e.pre.describe(), e.tickets));
@@ -1172,7 +1290,7 @@ impl Subject for LevelSubject {
 }
 
 fn factorial(n: usize) -> usize {
-    (1..=n).product::<usize>().max(1)
+    (1..=n.min(8)).product::<usize>().max(1)
 }
 
 /// C10 checks in one state: every rebuild path x every permutation of the pre-sort listing, plus
